@@ -72,6 +72,10 @@ static std::string join(const std::vector<std::string>& v) {
 }
 
 int main(int argc, char** argv) {
+    // an earlier emulator instance lives in the same process for the whole run (constructed first, reset, never used again):
+    // nothing the instance under test does may depend on it or reach it (function-local statics, shared tables, captured `this`)
+    static std::unique_ptr<Teakra::Teakra> g_decoy = std::make_unique<Teakra::Teakra>(Teakra::UserConfig{});
+    g_decoy->Reset();
     vh::Args a(argc, argv);
     vh::Out o;
     o.open(a.out.c_str());
